@@ -1,0 +1,58 @@
+// SPDX-FileCopyrightText: 2026 The Pion community <https://pion.ly>
+// SPDX-License-Identifier: MIT
+
+//go:build verif
+
+// Contracts (comment-only) for property C13: handles of a shared mux
+// connection are reference counted and do not disturb each other.
+
+package ice
+
+//@ func newSharedPacketConn
+//@   props C13
+//@   requires refs != nil && *refs < 2147483647
+//@   modifies *refs
+//@   ensures counts-the-new-handle: *refs == old(*refs) + 1
+//@   ensures fresh-open-handle: result != nil && fresh(result) && result.underlying == u && result.refs == refs && result.closeOnce == 0 && !result.ctx.gDone
+
+//@ func (*sharedPacketConn).Close
+//@   props C13
+//@   requires s != nil && s.refs != nil && *s.refs > 0 - 2147483648
+//@   ghostvar last bool = false
+//@   ghostvar closedUnderlying bool = false
+//@   site call Close#1 ghost closedUnderlying := true
+//@   modifies s.closeOnce, *s.refs, s.ctx.gDone, fam:H_ice.udpMuxedConn.*, fam:H_ice.UDPMuxDefault.*, fam:H_ice.tcpPacketConn.*, fam:H_ice.TCPMuxDefault.*, fam:M_string_*, fam:M_ice.ipPort_*, fam:M_netip.AddrPort_*, fam:E_netip.AddrPort*, fam:Chan.closed
+//@   site call cancel#1 ghost s.ctx.gDone := true
+//@   site call Add#1 assert releases-exactly-one-reference: arg1 == 0 - 1
+//@   site call Add#1 ghost last := result <= 0
+//@   site call Close#1 assert underlying-closed-only-by-the-last-handle: last && recv == s.underlying
+//@   ensures first-close-releases-one-reference: old(s.closeOnce) == 0 ==> *s.refs == old(*s.refs) - 1 && s.ctx.gDone
+//@   ensures repeated-close-is-a-noop: old(s.closeOnce) != 0 ==> result == nil && *s.refs == old(*s.refs) && s.ctx.gDone == old(s.ctx.gDone)
+//@   ensures last-handle-closes-the-underlying-connection: old(s.closeOnce) == 0 && last ==> closedUnderlying
+//@   ensures closed-afterwards: s.closeOnce != 0
+
+//@ func (*sharedPacketConn).WriteTo
+//@   props C13
+//@   site call WriteTo#1 assert only-while-this-handle-is-open: !s.ctx.gDone && recv == s.underlying && arg0 == b
+//@   ensures closed-handle-fails: s.ctx.gDone ==> result0 == 0 && err != nil
+
+//@ func (*sharedPacketConn).SetReadDeadline
+//@   props C13
+//@   modifies s.readDeadline, fam:E_time.Time
+//@   ensures closed-handle-fails: old(s.ctx.gDone) ==> result != nil && s.readDeadline == old(s.readDeadline)
+
+//@ func (*sharedPacketConn).SetWriteDeadline
+//@   props C13
+//@   site call SetWriteDeadline#1 assert only-while-this-handle-is-open: !s.ctx.gDone && recv == s.underlying
+//@   ensures closed-handle-fails: s.ctx.gDone ==> result != nil
+
+//@ func (*sharedPacketConn).readContext
+//@   props C13
+//@   requires s.ctx != nil
+//@   ensures closed-handle-fails: s.ctx.gDone ==> err != nil && ctx == nil && cancel == nil
+//@   ensures open-handle-reads-under-its-own-context: !s.ctx.gDone ==> err == nil && ctx != nil
+
+// Atomic-counter lemma: k live handles, each Close performs one atomic Add(-1);
+// the results are k-1, ..., 0 in the order of the atomic operations, so exactly
+// one Close sees a value <= 0: the last one. Stated over the counter values.
+//@ lemma C13 lastDecrementSeesZero: forall k int, i int :: k >= 1 && 1 <= i && i <= k ==> ((k - i <= 0) == (i == k))
